@@ -71,7 +71,7 @@ def clVerify (pk : PublicKey) (sig : CLSignature) (ms : List Int) : GoM Bool :=
 /-- `CLSignature.Randomize` with explicit randomness `r`. -/
 def clRandomize (pk : PublicKey) (sig : CLSignature) (r : Int) : CLSignature :=
   let sr := (goExp pk.s r pk.n).getD 0
-  { a := sig.a * sr % pk.n, e := sig.e, v := sig.v - sig.e * r, keyshareP := none }
+  { a := sig.a * sr % pk.n, e := sig.e, v := sig.v - sig.e * r, keyshareP := sig.keyshareP }
 
 /-- the issuer's signing equation with explicit randomness: given `v`, prime `e` and
     `d = e⁻¹ mod ord`, `A = (Z / (S^v · R · U))^d`. `none` = an inverse does not exist, or `RepresentToPublicKey`
